@@ -41,7 +41,7 @@ def build_world(modules):
     return w
 
 
-TASK_DEADLINE_S = int(os.environ.get("PYVC_TASK_DEADLINE_S", "420"))
+TASK_DEADLINE_S = int(os.environ.get("PYVC_TASK_DEADLINE_S", "900"))
 
 
 def _child(fid, conn):
@@ -220,8 +220,17 @@ def _int_consts(f):
     return out
 
 
+_WITNESS_CACHE: dict = {}
+
+
 def run_witness(name: str, timeout=300):
-    """run one end-to-end witness in its own process; returns (holds|None, detail)"""
+    """run one end-to-end witness in its own process; returns (holds|None, detail); memoised per check run"""
+    if name not in _WITNESS_CACHE:
+        _WITNESS_CACHE[name] = _run_witness(name, timeout)
+    return _WITNESS_CACHE[name]
+
+
+def _run_witness(name: str, timeout=300):
     env = dict(os.environ)
     repo = os.environ.get("PYVC_REPO", "/repo")
     env["PYTHONPATH"] = repo + os.pathsep + VERIF + os.pathsep + env.get("PYTHONPATH", "")
@@ -259,6 +268,9 @@ def check_property(pid: str, spec: dict, tier: str, seed: int) -> int:
         print(f"TOOL-ERROR property={pid}: no contracts registered")
         return 3
     nproc = min(int(os.environ.get("PYVC_PROCS", "12")), len(fids))
+    # longest first (times of the previous run, when there is one): the heavy functions should not start last
+    prev = {r_["function"]: r_.get("time_s", 0) for r_ in (load_json(os.path.join(EVID, f"{pid}.json"), {}).get("coverage", {}).get("functions_under_contract", []))}
+    fids.sort(key=lambda f: -prev.get(f, 1e9 if "_ir" in f else 0))
     results = run_pool(fids, nproc)
 
     ledger = load_json(os.path.join(VERIF, "contracts", "LEDGER.json"), {}).get(pid, {})
@@ -305,7 +317,25 @@ def check_property(pid: str, spec: dict, tier: str, seed: int) -> int:
                     undecided.append((o["oid"], verdict[1]))
             else:
                 n_obl += 1
-                undecided.append((o["oid"], o["note"]))
+                # no verdict from the solvers.  If the obligation discharged on the verified tree, its witness family (concrete
+                # inputs run on the real code) may still decide: a failing witness is a real failing input
+                hit = None
+                if ledger.get(o["oid"]) == "discharged" and len(violations) + len(undecided) < 6:
+                    for wn in w.contracts[r["fid"]].witnesses:
+                        holds, detail = run_witness(wn)
+                        if holds is False:
+                            hit = (wn, detail)
+                            break
+                if hit is not None:
+                    os.makedirs(os.path.join(REPLAYS, pid), exist_ok=True)
+                    safe = o["oid"].replace("/", "_").replace(":", "_").replace("#", "__")[-150:]
+                    path = os.path.join(REPLAYS, pid, safe + ".json")
+                    with open(path, "w") as f:
+                        json.dump({"property": pid, "obligation": o["oid"], "function": r["fid"], "solver_output": o["note"], "note": "the obligation was discharged on the verified tree and is now left open by both solvers; its witness family fails on the real code",
+                                   "witness": {"name": hit[0], "detail": hit[1], "rerun": f".venv/bin/python witnesses/e2e.py {hit[0]}"}, "rerun": f"./check replay {path}"}, f, indent=1, default=str)
+                    violations.append({"replay_file": path, "oid": o["oid"]})
+                else:
+                    undecided.append((o["oid"], o["note"]))
     # ledger: obligations that were discharged on the verified tree must still be generated
     missing = [oid for oid, st in ledger.items() if st == "discharged" and oid not in seen_oids and "#pre@" not in oid and not any(oid.startswith(u[0]) for u in undecided) and not any(oid.startswith(c[0]) for c in crashes)]
     # extra (thorough-tier conformance, bounded stand-ins)
